@@ -48,6 +48,10 @@ type c20link struct {
 	// ReadFirst: read the scopes of all earlier results before this step runs (the order of
 	// reads decides which scope is merged into an empty one)
 	ReadFirst bool `json:"read_first,omitempty"`
+	// Discard: result R is discarded before this step runs, so that the step recomputes the tasks
+	// of R (and of everything R was derived from): no failure is involved, and a recomputed task
+	// reports the increments of its latest execution, once.
+	Discard bool `json:"discard,omitempty"`
 }
 
 func runC20chain(t *vf.T, c c20chain) {
@@ -146,6 +150,10 @@ func runC20chain(t *vf.T, c c20chain) {
 				}
 			}
 		}
+		if st.Discard {
+			a.res.Discard(bgctx)
+			t.Count("chain_discards_before_a_step", 1)
+		}
 		if !exec1(sp, [2]bigslice.Slice{a.res, b.res}, want, anc) {
 			return
 		}
@@ -203,7 +211,7 @@ func genC20chain(rnd *vf.Rand, conf sessConf, ops []string) c20chain {
 			sp := genSpec(rnd.Fork(), o)
 			w, _, err := evalSpec(&sp, []*rel{rels[a], rels[b]})
 			if err == nil && len(sp.Nodes) >= 2 && len(w.Kinds) > 0 && !w.Weak {
-				c.Steps = append(c.Steps, c20link{R: a, R2: b, Spec: sp, ReadFirst: rnd.Chance(0.6)})
+				c.Steps = append(c.Steps, c20link{R: a, R2: b, Spec: sp, ReadFirst: rnd.Chance(0.6), Discard: rnd.Chance(0.4)})
 				rels = append(rels, w)
 				break
 			}
